@@ -345,6 +345,9 @@ func genCommon(t *rapid.T, s *rt.Spec, o GenOpts) {
 			s.Extra = 1 + uniform(t, "extran", 2)
 		}
 	}
+	// consumers spell unnamed function types differently from producers
+	// (identical types: parameter names are not part of a type's identity)
+	s.AltSpell = prob(t, "altspell", 0.35)
 	// listing order: a permutation of the options (filled by the renderer's option list)
 	n := 64
 	s.Order = make([]int, n)
